@@ -37,7 +37,7 @@ def budget(tier):
     return dict(runs=150000, recheck=48, shrink_tests=500)
 
 
-WRITE_POOL = (0, 1, 2, 3, -1, 7, 0.5, -2.25, 10, 'txt', 'q', '7', '', 'Abc', True, False, None,
+WRITE_POOL = (0, 1, 2, 3, -1, 7, 0.5, -2.25, 10, 'txt', 'q', '7', '', 'Abc', "'q", True, False, None,
               None, 100, 1.5)
 
 
